@@ -1,4 +1,5 @@
 import HioModel.Sched.TimeFlags
+import HioModel.Sched.TimeFlatten2
 /-!
 # C04 "Nesting doers inside a tock-0 DoDoer is observationally transparent"
 
@@ -62,6 +63,16 @@ theorem regroup_transparent_partial (keep : Id → Bool) (pool : List (Spec τ))
   obtain ⟨b1, b2, b3, b4, b5, b6⟩ := flatten_transparent_partial keep pool tock start limit fuel h0 hF' hG'
   exact ⟨a1.trans b1.symm, a2.trans b2.symm, a3.trans b3.symm, a4.trans b4.symm, a5.trans b5.symm, a6.trans b6.symm⟩
 
+/-- HETEROGENEOUS forests (guard G04 and: every KEPT DoDoer has tock `0` — e.g. an `always` one — or the scheduler's own
+`tock`, so that it is resumed in every cycle): transparent groups beside, inside and around kept DoDoers, at any depth, are
+transparent.  `Flattens2 keep tock p q` — `q` is `p` with the transparent groups spliced away, kept DoDoers (`keep i = true`)
+stay on both sides with flattened kids.  For a kept DoDoer with any other tock the statement is false:
+`transparent_under_lagging_dodoer_fails` (known finding C04-K2). -/
+theorem flatten_transparent_hetero_partial (keep : Id → Bool) (pool : List (Spec τ)) (tock start : τ) (limit : Option τ)
+    (fuel : Nat) {p q : List (Spec τ)} (h0 : 0 ≤ tock) (hF : Flattens2 keep tock p q) (hG : Spec.allStepsL g04 p = true) :
+    SameView keep (doistDo pool tock start limit fuel p) (doistDo pool tock start limit fuel q) :=
+  hF.sameView hG pool h0 start limit fuel
+
 /-! ### non-vacuity and the witness (τ := Nat) -/
 
 def yS (t : Option Nat) : Step Nat := ⟨[], .yieldT t⟩
@@ -105,5 +116,47 @@ theorem flatten_transparent_fails_at_asap_then_positive :
 /-- test: the two schedules of the witness, spelled out -/
 example : recurTymes 1 (doistDo [] 1 0 none 100 f46Flat).evs = [0, 1, 4, 5, 6]
     ∧ recurTymes 1 (doistDo [] 1 0 none 100 f46Nested).evs = [0, 1, 3, 4, 5] := by decide
+
+def hetA : Spec Nat := .leaf 1 .ok [yS (some 2), yS (some 0)]
+def hetB : Spec Nat := .leaf 2 .ok [yS (some 3), yS none, yS (some 0)]
+def hetC : Spec Nat := .leaf 3 .ok [yS (some 0), yS (some 0)]
+def hetNested : List (Spec Nat) :=
+  [.group 7 0 true [.group 9 0 false [hetA] [], hetC] [], .group 6 2 false [.group 8 0 false [hetB] []] []]
+def hetFlat : List (Spec Nat) := [.group 7 0 true [hetA, hetC] [], .group 6 2 false [hetB] []]
+def keepHet : Id → Bool := fun i => i != 9 && i != 8
+
+/-- non-vacuity of `flatten_transparent_hetero_partial`: an `always` DoDoer 7 (tock 0) holding a transparent group, next to a
+DoDoer 6 with the scheduler's tock holding one, with a limit -/
+example : SameView keepHet (doistDo [] 2 1 (some 9) 100 hetNested) (doistDo [] 2 1 (some 9) 100 hetFlat) := by
+  have hF : Flattens2 keepHet 2 hetNested hetFlat := by
+    unfold hetNested hetFlat
+    refine Flattens2.kgroup (by decide) (Or.inl rfl) ?_ (Flattens2.kgroup (by decide) (Or.inr rfl) ?_ Flattens2.nil)
+    · exact Flattens2.tgroup (q1 := [hetA]) (q2 := [hetC]) (by decide)
+        (Flattens2.leaf (by decide) (by decide) trivial Flattens2.nil)
+        (Flattens2.leaf (by decide) (by decide) trivial Flattens2.nil)
+    · exact Flattens2.tgroup (q1 := [hetB]) (q2 := []) (by decide)
+        (Flattens2.leaf (by decide) (by decide) trivial Flattens2.nil) Flattens2.nil
+  exact flatten_transparent_hetero_partial keepHet [] 2 1 (some 9) 100 (by decide) hF (by decide)
+
+/-- the guard on kept DoDoers is needed (known finding C04-K2): DoDoer 7 has tock 3 under a scheduler with tock 2, so it
+comes round at 0, 4, 6, 10, 12 …; the transparent group 9 inside it is due at `tyme + 3` and skips the recurs at 6 and 12.
+Leaf 1 (yields 1, a G04 script) is resumed at every recur of 7 when it is a direct child, not when it sits in group 9. -/
+theorem transparent_under_lagging_dodoer_fails :
+    let a : Spec Nat := .leaf 1 .ok [yS (some 1), yS (some 1), yS (some 1), yS (some 1), yS (some 1)]
+    ¬ SameView (fun i => i != 9)
+      (doistDo [] 2 0 none 100 [.group 7 3 false [.group 9 0 false [a] []] []])
+      (doistDo [] 2 0 none 100 [.group 7 3 false [a] []]) := by
+  intro a h
+  have e := congrArg (recurTymes 1) h.1
+  rw [keepView_recurTymes _ 1 (by decide), keepView_recurTymes _ 1 (by decide)] at e
+  revert e
+  decide
+
+def k2Leaf : Spec Nat := .leaf 1 .ok [yS (some 1), yS (some 1), yS (some 1), yS (some 1), yS (some 1)]
+
+/-- test: the two schedules of that witness -/
+example : recurTymes 1 (doistDo [] 2 0 none 100 [.group 7 3 false [k2Leaf] []]).evs = [0, 4, 6, 10, 12, 16] := by decide
+example : recurTymes 1 (doistDo [] 2 0 none 100 [.group 7 3 false [.group 9 0 false [k2Leaf] []] []]).evs
+    = [0, 4, 10, 16, 22, 28] := by decide
 
 end Hio.Sched
